@@ -424,6 +424,9 @@ class Evaluator:
                                              z3.Select(lt.arr(r), k) == coerce(list_at(a, k), et).t)))
         ctx.assume(z3.ForAll([k], z3.Implies(z3.And(0 <= k, k < nb),
                                              z3.Select(lt.arr(r), na + k) == coerce(list_at(b, k), et).t)))
+        x = fresh('x', z3.IntSort())     # the same fact indexed by the position in the result (a trigger on r[x])
+        ctx.assume(z3.ForAll([x], z3.Implies(z3.And(na <= x, x < na + nb),
+                                             z3.Select(lt.arr(r), x) == coerce(list_at(b, x - na), et).t)))
         return V(lt, r)
 
     def list_repeat(self, a, b, ctx):
@@ -743,6 +746,23 @@ class Evaluator:
         return V(STR, z3.Concat(*parts) if len(parts) > 1 else parts[0])
 
     def ev_GeneratorExp(self, n, ctx):
+        g = n.generators[0]
+        if len(n.generators) == 1 and not g.ifs and isinstance(g.target, ast.Name) and isinstance(n.elt, ast.Name) \
+                and n.elt.id == g.target.id and not (isinstance(g.iter, ast.Call) and isinstance(g.iter.func, ast.Name)
+                                                      and g.iter.func.id == 'range'):
+            src = self.ev(g.iter, ctx)
+            if isinstance(src.ty, (TList, TBag, TSet)):
+                return src           # (x for x in xs): the same elements in the same order
+        if len(n.generators) == 1 and not g.ifs and not (isinstance(g.iter, ast.Call) and isinstance(g.iter.func, ast.Name)
+                                                           and g.iter.func.id == 'range'):
+            saved = dict(ctx.env)
+            try:
+                src = self.ev(g.iter, ctx)
+            finally:
+                ctx.env.clear()
+                ctx.env.update(saved)
+            if isinstance(src.ty, TList):
+                return self.engine.list_comprehension(n, ctx, self)     # (f(x) for x in list): consumed in order, as the list of f(x)
         return self.engine.comprehension_bag(n, ctx, self)
 
     def ev_ListComp(self, n, ctx):
